@@ -50,6 +50,9 @@ pub struct RMsg {
     pub keys: Vec<(u64, u64, bool)>,
     /// C05: (request key, hash of the canonical reference observation) for cross-process comparison
     pub refs: Vec<(u64, u64)>,
+    /// C05: where the request of a reference came from: (request key, world tag, job index)
+    #[serde(default)]
+    pub ref_origin: Vec<(u64, String, usize)>,
     /// C16: hashes of delivered byte strings on which at least one fault fired
     pub delivered: Vec<u64>,
     pub samples: Vec<String>,
@@ -216,7 +219,7 @@ impl Worker {
 
     /// reference observation of a compilation request: canonical solo world (zero key, whole-buffer
     /// reader, unbounded writer, fresh thread), computed once per worker process and request.
-    fn reference(&mut self, job: &JobSpec, rm: &mut RMsg) -> (Obs, World) {
+    fn reference(&mut self, job: &JobSpec, origin: (&str, usize), rm: &mut RMsg) -> (Obs, World) {
         let key = job.key();
         if let Some(x) = self.refs.get(&key) {
             return x.clone();
@@ -230,6 +233,7 @@ impl Worker {
         let obs = r.jobs[0].as_ref().unwrap().obs.clone();
         bump(&mut rm.stats, "references", 1);
         rm.refs.push((key, obs.hash()));
+        rm.ref_origin.push((key, origin.0.to_string(), origin.1));
         if self.refs.len() > 4000 {
             self.refs.clear();
         }
@@ -241,7 +245,7 @@ impl Worker {
         for (ji, jr) in r.jobs.iter().enumerate() {
             let Some(jr) = jr else { continue };
             let js = &w.jobs[ji];
-            let (refobs, refworld) = self.reference(js, rm);
+            let (refobs, refworld) = self.reference(js, (tag, ji), rm);
             // condition hash: everything that may legitimately differ between two observations
             let t = w.threads.iter().position(|t| t.jobs.contains(&ji)).unwrap_or(0);
             let pos = w.threads[t].jobs.iter().position(|x| *x == ji).unwrap_or(0);
